@@ -271,9 +271,10 @@ class Out:
                 if val.endswith(' ') and not val.endswith('\\ '):
                     # (a name may end with an escaped space, which is not white space)
                     self._remove_last_if_S()
-                if self.out and (
-                    (val.startswith('*') and self.out[-1] == '/')
-                    or (val == '=' and self.out[-1] in ('*', '~', '|', '^', '$'))
+                # the last piece written (an empty spacer is not one)
+                last = next((s for s in reversed(self.out) if s), '')
+                if (val.startswith('*') and last == '/') or (
+                    val == '=' and last in ('*', '~', '|', '^', '$')
                 ):
                     # written without white space "/" + "*" would open a comment
                     # and "*" + "=" would become the single token "*="
